@@ -54,13 +54,101 @@ def norm_text(node, limit=160):
     return t[:limit]
 
 
-def normalise(tree):
+SIGS = {}  # simple callable name -> set of parameter-name tuples (None: some definition takes *args), set per SrcModel
+
+
+def signature_index(sources):
+    """{simple name: set of parameter tuples (self / cls dropped)} over all definitions in `sources` ({rel: text}).
+    A name maps to None when one of its definitions takes *args or positional-only parameters (then the position of a
+    keyword is not determined by the name alone)."""
+    idx = {}
+
+    def add(name, params):
+        if idx.get(name, 0) is None:
+            return
+        if params is None:
+            idx[name] = None
+        else:
+            idx.setdefault(name, set()).add(params)
+
+    def params_of(fn, drop_first):
+        a = fn.args
+        if a.vararg or a.posonlyargs:
+            return None
+        names = [x.arg for x in a.args]
+        return tuple(names[1:] if drop_first else names)
+
+    for rel, text in sources.items():
+        try:
+            tree = ast.parse(text)
+        except SyntaxError:
+            continue
+        methods = set()
+        for cls in [n for n in ast.walk(tree) if isinstance(n, ast.ClassDef)]:
+            init = [f for f in cls.body if isinstance(f, ast.FunctionDef) and f.name == "__init__"]
+            if init:
+                add(cls.name, params_of(init[0], True))
+            for f in cls.body:
+                if isinstance(f, (ast.FunctionDef, ast.AsyncFunctionDef)):
+                    methods.add(id(f))
+                    static = any(ast.unparse(d) == "staticmethod" for d in f.decorator_list)
+                    if not f.name.startswith("__"):
+                        add(f.name, params_of(f, not static))
+        for f in [n for n in ast.walk(tree) if isinstance(n, (ast.FunctionDef, ast.AsyncFunctionDef))]:
+            if id(f) not in methods and not f.name.startswith("__"):
+                add(f.name, params_of(f, False))
+    return idx
+
+
+def param_position(call, name, sigs=None):
+    """Index of parameter `name` in the callee of `call`, when every repository definition with the callee's simple name
+    puts it at the same position (else None)."""
+    sigs = SIGS if sigs is None else sigs
+    f = call.func
+    cn = f.id if isinstance(f, ast.Name) else f.attr if isinstance(f, ast.Attribute) else None
+    cands = sigs.get(cn) if cn else None
+    if not cands:
+        return None
+    pos = {c.index(name) if name in c else None for c in cands}
+    if len(pos) == 1 and None not in pos:
+        return pos.pop()
+    return None
+
+
+def _positionalise(tree, sigs):
+    """N2: keyword arguments that name the next positional parameter of the callee become positional."""
+    for call in [n for n in ast.walk(tree) if isinstance(n, ast.Call)]:
+        if not call.keywords or any(isinstance(a, ast.Starred) for a in call.args) or any(k.arg is None for k in call.keywords):
+            continue
+        f = call.func
+        cn = f.id if isinstance(f, ast.Name) else f.attr if isinstance(f, ast.Attribute) else None
+        cands = sigs.get(cn) if cn else None
+        if not cands:
+            continue
+        while call.keywords:
+            p = len(call.args)
+            nxt = {c[p] if len(c) > p else None for c in cands}
+            if len(nxt) != 1 or None in nxt:
+                break
+            want = nxt.pop()
+            k = next((k for k in call.keywords if k.arg == want), None)
+            if k is None:
+                break
+            call.args.append(k.value)
+            call.keywords.remove(k)
+    return tree
+
+
+def normalise(tree, sigs=None):
     """Canonical form applied to every analysed module before any rule sees it, so that rules do not depend on a
     maintainer's choice between equivalent spellings:
 
     N1  `t = E` immediately followed by `return t`, where the local `t` occurs nowhere else in the function, becomes
         `return E` (an "extract variable" refactoring of a return value is invisible to the rules).
+    N2  a keyword argument naming the callee's next positional parameter becomes positional, when every definition in
+        the repository with the callee's simple name agrees on that position (`f(a, y=b)` is `f(a, b)` for every rule).
     """
+    _positionalise(tree, SIGS if sigs is None else sigs)
 
     def occurrences(fn):
         cnt = {}
@@ -267,6 +355,8 @@ class SrcModel:
                 if parts[-1] == "__init__":
                     parts = parts[:-1]
                 self._paths.setdefault(".".join(parts), rel)
+        global SIGS
+        SIGS = self.sigs = signature_index({rel: self.read(rel) for name, rel in self._paths.items() if name not in LAZY_MODULES})
         for name in sorted(self._paths):
             if name in LAZY_MODULES:
                 continue
